@@ -928,6 +928,19 @@ class Interp:
                         root = ('O', 'constalloc#%d' % st.n['obj'])
                         st.mem[root] = val
                         return ('ref', root, ())
+                if o.get('fnptrs') and len(b) % 8 == 0 and len(o['fnptrs']) == len(b) // 8 and \
+                        sorted(x[0] for x in o['fnptrs']) == list(range(0, len(b), 8)):
+                    # a table of function pointers (e.g. constructors chosen by an index)
+                    byoff = dict((x[0], x[1]) for x in o['fnptrs'])
+                    arr = ('agg', ('array',), tuple(('fn', byoff[k0]) for k0 in range(0, len(b), 8)))
+                    if not isref and tyname.startswith('['):
+                        return arr
+                    st.n['obj'] += 1
+                    root = ('O', 'constalloc#%d' % st.n['obj'])
+                    st.mem[root] = arr
+                    if o['ty'].startswith('&[') and ';' not in o['ty']:
+                        return ('slice', root, (), C(64, 0), C(64, len(arr[2])))
+                    return ('ref', root, ())
                 if 'elem' in o and o['elem']['size'] > 0 and o['elem']['fields'] and \
                         all(int_type(f_['ty']) or f_['ty'] == 'bool' for f_ in o['elem']['fields']) and \
                         len(b) % o['elem']['size'] == 0:
@@ -1456,6 +1469,11 @@ class Interp:
             f = self.operand(st, fr, t['func'])
             if f is not None and f[0] == 'fn' and f[1] in self.fns:
                 callee = f[1]
+            elif f is not None and f[0] == 'fn' and self.variant_ctor(f[1]) is not None:
+                # a tuple-variant / tuple-struct constructor used as a function value
+                kind = self.variant_ctor(f[1])
+                yield (('agg', kind, tuple(args)), st, 'ok', None)
+                return
             else:
                 st.events.append(('indirect_call', f, tuple(args), site))
                 yield (st.fresh(type_bits(dest_ty), 'indirect_ret'), st, 'ok', None)
@@ -1524,6 +1542,18 @@ class Interp:
                         yield (None, r.state, r.status, (r.where, r.detail))
                 return
         yield from self.unknown_external(st, callee, args, site, dest_ty, t)
+
+    def variant_ctor(self, path):
+        """('adt', name, index, variant) when `path` names a variant of a crate enum (its constructor function)"""
+        if '::' not in path:
+            return None
+        adt, var = path.rsplit('::', 1)
+        a = self.adts.get(adt)
+        if a and a.get('kind') == 'enum':
+            for i, v in enumerate(a['variants']):
+                if v['name'] == var:
+                    return ('adt', adt, i, var)
+        return None
 
     def unknown_external(self, st, callee, args, site, dest_ty, t):
         # unknown external callee: havoc what it may write, return a fresh symbol
